@@ -75,11 +75,16 @@ func ruleR225(c *Ctx) {
 				return true
 			}
 			n++
-			cl, isCall := unparen(as.Rhs[0]).(*ast.CallExpr)
-			capOK := false
-			if isCall {
-				if isMk, cc := makeChanCap(in, cl); isMk && cc == ">=1" {
-					capOK = true
+			srcs := resolveLocalExpr(in, f, as.Rhs[0])
+			capOK := len(srcs) > 0
+			for _, src := range srcs {
+				cl, isCall := unparen(src).(*ast.CallExpr)
+				if !isCall {
+					capOK = false
+					continue
+				}
+				if isMk, cc := makeChanCap(in, cl); !isMk || cc != ">=1" {
+					capOK = false
 				}
 			}
 			c.Check(capOK, f, as, "withdrawal channel stored in "+exprString(ix.X), what, ifElse(capOK, "made with capacity >= 1", "not made with a capacity: "+exprString(as.Rhs[0])))
@@ -358,10 +363,17 @@ func ruleR230(c *Ctx) {
 				return true
 			}
 			n++
-			verbatim := fieldOf(in, cl.Args[1]) != nil
-			if id, isId := unparen(cl.Args[1]).(*ast.Ident); isId {
-				if v, ok := objOf(in, id).(*types.Var); ok && isParam(f.Root(), v) {
-					verbatim = true
+			srcs := resolveLocalExpr(in, f, cl.Args[1])
+			verbatim := len(srcs) > 0
+			for _, src := range srcs {
+				ok := fieldOf(in, src) != nil
+				if id, isId := unparen(src).(*ast.Ident); isId {
+					if v, isV := objOf(in, id).(*types.Var); isV && isParam(f.Root(), v) {
+						ok = true
+					}
+				}
+				if !ok {
+					verbatim = false
 				}
 			}
 			c.Check(verbatim, f, cl, "values handed to "+fn.Name(), what, ifElse(verbatim, exprString(cl.Args[1])+": the answer's own field", exprString(cl.Args[1])+" is not a field of the answer"))
@@ -371,4 +383,22 @@ func ruleR230(c *Ctx) {
 	if n == 0 {
 		c.Missing("answer application", "no call of ApplyTaskDataOutput / ApplyTaskResult was found")
 	}
+}
+
+// resolveLocalExpr returns the expressions a value may come from: the expression itself, or, for a local variable
+// of the function (or of an enclosing one), everything assigned to it.
+func resolveLocalExpr(in *types.Info, f *FuncInfo, e ast.Expr) []ast.Expr {
+	id, ok := unparen(e).(*ast.Ident)
+	if !ok {
+		return []ast.Expr{e}
+	}
+	v, ok := objOf(in, id).(*types.Var)
+	if !ok || v.IsField() || isParam(f.Root(), v) || v.Parent() == v.Pkg().Scope() {
+		return []ast.Expr{e}
+	}
+	defs, _ := localDefs(in, f.Root().Body, v)
+	if len(defs) == 0 {
+		return []ast.Expr{e}
+	}
+	return defs
 }
